@@ -395,6 +395,14 @@ def _first_diff(env, a, b, base_label):
     return None
 
 
+# builds that are compared by outcome only: the control made before the switch is touched, and
+# the rebuild of that combination while the switch is on (what a build made while the switch
+# is on means is probed on the fresh combination)
+L_CONTROL = "every switch off, fresh combination"
+L_USED_ON = "{item} on, combination used while off"
+NO_VECTOR = {L_CONTROL} | {L_USED_ON.format(item=i) for _, i in SWITCHES}
+
+
 def judge_state(env, st, soft, totality_only, base, base_vecs, tp, outs, deep, base_label="when built while every switch was off"):
     """Compare the builds `outs` = [(label, kind, value)] made in other process states with
     the build `base` = (kind, value) made while every switch was off.
@@ -416,7 +424,7 @@ def judge_state(env, st, soft, totality_only, base, base_vecs, tp, outs, deep, b
         if base_vecs is None:
             base_vecs = env.compact(base[1], tp)
         for label, kind, val in outs:
-            if kind != "ann":
+            if kind != "ann" or label in NO_VECTOR:
                 continue
             d = _first_diff(env, env.compact(val, tp), base_vecs, base_label)
             if d:
@@ -431,17 +439,18 @@ def eval_state(env: Env, spec: str, st, soft, totality_only, info, deep, switche
     the switch is on, on U and on a never-used combination A; after the switch is off
     again, on U, on A and on yet another never-used combination.  All six must have the
     outcome of the baseline build (Float[Duck, spec], made before any switch was touched
-    for this spec); annotations are probed (only with every switch off again) against
-    the baseline's acceptance vectors when `deep`.
+    for this spec); when `deep`, the annotations built on A (while on, after off), on U
+    after off and on B are probed (only with every switch off again) against the
+    baseline's acceptance vectors.
     -> [(problem-kind, switch-short-name, text)]"""
     base = info["_base"]
     out = []
     for short, item in switches:
         # every scenario is self-contained (own combinations), so that it can be replayed alone
         cat_u, cat_a, cat_b = env.fresh_cat(), env.fresh_cat(), env.fresh_cat()
-        outs = [("every switch off, fresh combination", *env.build(spec, cat_u))]
+        outs = [(L_CONTROL, *env.build(spec, cat_u))]
         with env.switch(item, True):
-            outs.append((f"{item} on, combination used while off", *env.build(spec, cat_u)))
+            outs.append((L_USED_ON.format(item=item), *env.build(spec, cat_u)))
             outs.append((f"{item} on, fresh combination", *env.build(spec, cat_a)))
         outs.append((f"{item} on then off, combination used while off and while on", *env.build(spec, cat_u)))
         outs.append((f"{item} on then off, combination first used while on", *env.build(spec, cat_a)))
@@ -666,7 +675,7 @@ def run(ctx):
             viols.append(Violation(key=f"C14:{kind}:{name}", what=f"Float[Duck, <{name}>]: {text}", replay=dict(kind=kind, name=name)))
     samples.append(dict(family="nonstring", spec="b'a'", outcome="ValueError" if not eval_special(env, "nonstring", "bytes") else "violation"))
     samples.append(dict(family="comma", spec="a,b", outcome=env.build("a,b")[0]))
-    samples.append(dict(family="state", spec="#*in", switch="jaxtyping_disable", outcome="same outcome and acceptance vectors in all 6 rebuilds" if not eval_state(env, "#*in", "ok", False, False, eval_spec(env, "#*in")[2], True, SWITCHES[:1]) else "violation"))
+    samples.append(dict(family="state", spec="#*in", switch="jaxtyping_disable", outcome="same outcome in all 6 rebuilds, same acceptance vectors" if not eval_state(env, "#*in", "ok", False, False, eval_spec(env, "#*in")[2], True, SWITCHES[:1]) else "violation"))
 
     viols.sort(key=lambda v: (len(v.key), v.key))
     cov = dict(
@@ -722,7 +731,7 @@ def run(ctx):
         + ("6 names x 4" if ctx.quick else "12 names x 5")
         + " modifier choices); every name as `name=` prefix of 6 tokens; "
         + "process state: EVERY spec of the space rebuilt 6 times per config switch (off: fresh combination U; switch on: U + fresh A; on then off: U, A, fresh B) "
-        + "and compared with the switch-off build by outcome, and by acceptance vectors (contexts none, K1, tree:empty) on the sub-space state_deep_space; "
+        + "and compared with the switch-off build by outcome, and (the 4 of them that involve A, B or U-after-off) by acceptance vectors (contexts none, K1, tree:empty) on the sub-space state_deep_space; "
         + f"interpreter started with the switch in the environment: {len(es)} specs per switch, judged completely after switching off",
     )
     return Result(
